@@ -176,8 +176,8 @@ def random_specs(rng, n):
             prev = cur
             vs.append(Variant(ident=ids[i], disc=text, disc_val=cur if text is not None else None,
                               disabled=rng.random() < 0.3))
-        out.append(EnumSpec("R%d" % k, vs, derives=["FromRepr"], std_derives=["Debug", "Clone", "Copy", "PartialEq"],
-                            repr=R, role="random", note="random seed corpus"))
+        out.append(decorate(rng, EnumSpec("R%d" % k, vs, derives=["FromRepr"], std_derives=["Debug", "Clone", "Copy", "PartialEq"],
+                            repr=R, role="random", note="random seed corpus")))
     return out
 
 
